@@ -176,7 +176,7 @@ struct HeapEngine : Engine {
         if (yflag) yield_point("heap_enter");
         void* result = nullptr;
         if (faultmode && choice("fail", 0)) {
-            c->injected_fail = true; st->faults["injected_enomem"]++;
+            c->injected_fail = true; st->faults["injected_enomem"]++; errno = ENOMEM;
             rr->log.linef("  heap %s(%zu,al=%zu) -> ENOMEM (injected)", call, size, al);
         } else if (size == 0 && choice_s("z", "uniq") == "null") {
             st->faults["malloc0_returns_null"]++;
@@ -308,6 +308,8 @@ struct HeapEngine : Engine {
         sigjmp_buf jb; sigjmp_buf* prev = tl_jmp; bool ok = true;
         if (sigsetjmp(jb, 1) == 0) {
             tl_jmp = &jb; tl_ctx = &c;
+            // ambient errno: whatever an unrelated earlier call of the thread left behind (the C library never resets it); the plan decides it
+            errno = (int)s.num("errno", 0); if (errno) st->faults["ambient_errno_nonzero"]++;
             fn();
             tl_ctx = nullptr; tl_jmp = prev;
         } else {
@@ -662,7 +664,8 @@ struct HeapEngine : Engine {
 
     void sweep_plan(std::uint64_t i, Plan& out) override {
         const SweepCase& sc = sweep[(std::size_t)i]; const HOps& o = reg[sc.reg]; head(out, "sweep");
-        auto base = [&](const char* op) { Step s; s.op = op; s.set("task", 0); return s; };
+        static const int ERRS[6] = {0, EINVAL, 0, ENOMEM, EINTR, ERANGE};
+        auto base = [&](const char* op) { Step s; s.op = op; s.set("task", 0); if (ERRS[i % 6]) s.set("errno", ERRS[i % 6]); return s; };
         std::int64_t res = res_of_class(sc.rcls, o.A); const char* tail = sc.tail ? "flush" : "slack";
         if (!sc.cont) {
             std::size_t n = n_of_class(sc.ncls, o.S, o.A);
@@ -743,6 +746,7 @@ struct HeapEngine : Engine {
                 heapchoices(s, false);
             }
             s.setu("task", r.below((std::uint64_t)tasks));
+            if (r.chance(1, 3)) { static const int ERRS[6] = {EINVAL, ENOMEM, EINTR, ERANGE, EAGAIN, EDOM}; s.set("errno", ERRS[r.below(6)]); }
             if (yielding) s.setu("y", r.below(8));
             out.steps.push_back(s);
         }
